@@ -1,11 +1,491 @@
 import JF.Model.Cells
-import Mathlib.Tactic.Linarith
+import JF.Lemmas.CellsSys
+import JF.Lemmas.CellsGeom
+import JF.Lemmas.CellsStep
 /-!
 # C16 — The cell grid partitions the box; neighbour/offset relations form a torus
+
+Model: `JF.Model.Cells` (after `cuboid_cells.py`, `cuboid_periodic_cells.py`).
+
+Part A (this file, first half): index structure and torus laws.  They hold for **every** scalar type,
+every float stepper and every fuel, i.e. also for the binary64 reading the driver runs: they only
+concern identifiers.
 -/
 namespace JF.C16
 open JF JF.Cells
 
-theorem dot_nil (a : List Int) : dot a [] = 0 := by cases a <;> rfl
+/-! ## A. identifiers -/
+
+/-- **index bijection**: for cell counts `n_d ≥ 1` the list index `Σ ident[d]·cumulative_product[d]` is a
+bijection between the identifiers `Π [0, n_d)` and `[0, Π n_d)`. -/
+theorem index_bijection (n : List Int) (hp : ∀ x ∈ n, 1 ≤ x) :
+    (∀ a, Valid n a → 0 ≤ flat n a ∧ flat n a < numberOfCells n) ∧
+    (∀ a b, Valid n a → Valid n b → flat n a = flat n b → a = b) ∧
+    (∀ k, 0 ≤ k → k < numberOfCells n → ∃ a, Valid n a ∧ flat n a = k) :=
+  ⟨fun _ h => flat_bounds h, fun _ _ ha hb h => flat_inj ha hb h,
+   fun k h0 h1 => ⟨unflat n k, unflat_valid hp h0 h1⟩⟩
+
+example : Valid [3, 5, 7] [2, 4, 6] ∧ flat [3, 5, 7] [2, 4, 6] = 104 ∧ numberOfCells [3, 5, 7] = 105 := by
+  refine ⟨by simp [Valid], by decide, by decide⟩
+
+section anyScalar
+variable {α : Type} [Add α] [Sub α] [Mul α] [Div α] [Neg α] [LT α] [DecidableLT α] [LE α] [DecidableLE α] [BEq α]
+
+/-- **the constructor enumerates the identifiers**: whenever `CuboidCells.__init__` succeeds (any scalar
+type, any stepping functions), there are exactly `Π n_d` cells, cell number `k` carries a valid identifier
+whose list index is `k` (so the constructor's own `assert` can never fire), and every valid identifier is
+carried by exactly one cell. -/
+theorem constructor_enumerates_identifiers (o : Ops α) (st : Stepper α) (fuel : Nat) (periodic : Bool)
+    (lengths : List α) (cps : List Int) (layers : Int) (s : System α)
+    (h : create o st fuel periodic lengths cps layers = .ok s) :
+    (s.cells.size : Int) = numberOfCells s.perSide ∧
+    (∀ k (hk : k < s.cells.size), Valid s.perSide s.cells[k].ident ∧ flat s.perSide s.cells[k].ident = k) ∧
+    (∀ t, Valid s.perSide t → ∃ k, ∃ hk : k < s.cells.size, s.cells[k].ident = t ∧
+        ∀ k' (hk' : k' < s.cells.size), s.cells[k'].ident = t → k' = k) := by
+  have w := (create_wf o st fuel periodic lengths cps layers s h).1
+  refine ⟨w.size, w.ident, ?_⟩
+  intro t ht
+  obtain ⟨k, hk, _, _, e⟩ := cellOfIdent_valid w ht
+  exact ⟨k, hk, e, fun k' hk' e' => ident_inj w k' k hk' hk (by rw [e, e'])⟩
+
+/-- non-vacuity: the constructor succeeds (native binary64, evaluated by the kernel) -/
+example : (match create Ops.float Stepper.float 100 true [1.0, 2.0] [4, 3] 1 with
+    | .ok s => s.cells.size | .error _ => 0) = 12 := by decide +kernel
+end anyScalar
+
+/-! ## B. nearby cells, neighbours (identifier arithmetic modulo `n`) -/
+
+section torus
+variable {α : Type} {s : System α}
+
+/-- the cell a successful lookup of `t` returns (total version used to describe `mapE`) -/
+private def lookup (s : System α) (t : List Int) : Cell α :=
+  match cellOfIdent s t with
+  | .ok c => c
+  | .error _ => ⟨[], [], []⟩
+
+private theorem lookup_valid (w : WF s) {t : List Int} (hv : Valid s.perSide t) :
+    cellOfIdent s t = .ok (lookup s t) ∧ (lookup s t).ident = t ∧
+      ∃ k, ∃ hk : k < s.cells.size, lookup s t = s.cells[k] := by
+  obtain ⟨k, hk, _, hc, e⟩ := cellOfIdent_valid w hv
+  have : lookup s t = s.cells[k] := by simp [lookup, hc]
+  exact ⟨by rw [this]; exact hc, by rw [this]; exact e, k, hk, this⟩
+
+private theorem lookup_self (w : WF s) (k : Nat) (hk : k < s.cells.size) :
+    lookup s s.cells[k].ident = s.cells[k] := by
+  simp [lookup, cellOfIdent_self w k hk]
+
+/-- **nearby_spec (periodic)**: `_yield_nearby_cells` of `CuboidPeriodicCells` never fails and yields exactly
+the cells whose identifier is `(ident + k) mod n` with `|k_d| ≤ neighbor_layers` in every direction. -/
+theorem nearby_spec_periodic (w : WF s) (hp : s.periodic = true) (k : Nat) (hk : k < s.cells.size) :
+    ∃ l, nearby s s.cells[k] = .ok l ∧
+      ∀ k' (hk' : k' < s.cells.size),
+        (s.cells[k'] ∈ l ↔ NearMod s.layers s.perSide s.cells[k].ident s.cells[k'].ident) := by
+  have hlen : s.cells[k].ident.length = s.perSide.length := (w.ident k hk).1.length_eq
+  have hmem := fun t => mem_nearbyIdents_periodic (ℓ := s.layers) w.layers (n := s.perSide) t hlen
+  refine ⟨(nearbyIdents s.periodic s.perSide s.layers s.cells[k].ident).map (lookup s), ?_, ?_⟩
+  · unfold nearby
+    apply mapE_ok
+    intro t ht
+    rw [hp] at ht
+    exact (lookup_valid w (((hmem t).mp ht).valid w.pos)).1
+  · intro k' hk'
+    rw [hp, List.mem_map]
+    constructor
+    · rintro ⟨t, ht, e⟩
+      have hn := (hmem t).mp ht
+      have := (lookup_valid w (hn.valid w.pos)).2.1
+      rw [e] at this; rw [this]; exact hn
+    · intro hn
+      exact ⟨_, (hmem _).mpr hn, lookup_self w k' hk'⟩
+
+/-- every element of the periodic nearby list is a cell of the system -/
+theorem nearby_periodic_subset (w : WF s) (hp : s.periodic = true) (k : Nat) (hk : k < s.cells.size)
+    (l : List (Cell α)) (hl : nearby s s.cells[k] = .ok l) :
+    ∀ c ∈ l, ∃ k', ∃ hk' : k' < s.cells.size, c = s.cells[k'] := by
+  have hlen : s.cells[k].ident.length = s.perSide.length := (w.ident k hk).1.length_eq
+  have hmem := fun t => mem_nearbyIdents_periodic (ℓ := s.layers) w.layers (n := s.perSide) t hlen
+  have : nearby s s.cells[k] = .ok ((nearbyIdents s.periodic s.perSide s.layers s.cells[k].ident).map (lookup s)) := by
+    unfold nearby
+    apply mapE_ok
+    intro t ht
+    rw [hp] at ht
+    exact (lookup_valid w (((hmem t).mp ht).valid w.pos)).1
+  rw [this] at hl
+  cases hl
+  intro c hc
+  rw [hp, List.mem_map] at hc
+  obtain ⟨t, ht, rfl⟩ := hc
+  exact (lookup_valid w (((hmem t).mp ht).valid w.pos)).2.2
+
+/-- **nearby_spec (non-periodic)**: `CuboidCells._yield_nearby_cells` yields exactly the cells whose
+identifier lies in the window `ident ± neighbor_layers` clipped to the grid. -/
+theorem nearby_spec_clipped (w : WF s) (hp : s.periodic = false) (k : Nat) (hk : k < s.cells.size) :
+    ∃ l, nearby s s.cells[k] = .ok l ∧
+      ∀ k' (hk' : k' < s.cells.size),
+        (s.cells[k'] ∈ l ↔ NearClip s.layers s.perSide s.cells[k].ident s.cells[k'].ident) := by
+  have hlen : s.cells[k].ident.length = s.perSide.length := (w.ident k hk).1.length_eq
+  have hmem := fun t => mem_nearbyIdents_clipped (ℓ := s.layers) w.layers (n := s.perSide) t hlen
+  refine ⟨(nearbyIdents s.periodic s.perSide s.layers s.cells[k].ident).map (lookup s), ?_, ?_⟩
+  · unfold nearby
+    apply mapE_ok
+    intro t ht
+    rw [hp] at ht
+    exact (lookup_valid w ((hmem t).mp ht).valid).1
+  · intro k' hk'
+    rw [hp, List.mem_map]
+    constructor
+    · rintro ⟨t, ht, e⟩
+      have hn := (hmem t).mp ht
+      have := (lookup_valid w hn.valid).2.1
+      rw [e] at this; rw [this]; exact hn
+    · intro hn
+      exact ⟨_, (hmem _).mpr hn, lookup_self w k' hk'⟩
+
+/-- **nearby is symmetric and reflexive** (periodic and non-periodic cell systems) -/
+theorem nearby_symm (w : WF s) (k k' : Nat) (hk : k < s.cells.size) (hk' : k' < s.cells.size)
+    (l l' : List (Cell α)) (hl : nearby s s.cells[k] = .ok l) (hl' : nearby s s.cells[k'] = .ok l')
+    (h : s.cells[k'] ∈ l) : s.cells[k] ∈ l' := by
+  cases hp : s.periodic
+  · obtain ⟨m, hm, sp⟩ := nearby_spec_clipped w hp k hk
+    obtain ⟨m', hm', sp'⟩ := nearby_spec_clipped w hp k' hk'
+    rw [hl] at hm; cases hm; rw [hl'] at hm'; cases hm'
+    exact (sp' k hk).mpr (((sp k' hk').mp h).symm (w.ident k hk).1)
+  · obtain ⟨m, hm, sp⟩ := nearby_spec_periodic w hp k hk
+    obtain ⟨m', hm', sp'⟩ := nearby_spec_periodic w hp k' hk'
+    rw [hl] at hm; cases hm; rw [hl'] at hm'; cases hm'
+    exact (sp' k hk).mpr (((sp k' hk').mp h).symm (w.ident k hk).1)
+
+theorem self_mem_nearby (w : WF s) (k : Nat) (hk : k < s.cells.size) :
+    ∃ l, nearby s s.cells[k] = .ok l ∧ s.cells[k] ∈ l := by
+  cases hp : s.periodic
+  · obtain ⟨m, hm, sp⟩ := nearby_spec_clipped w hp k hk
+    exact ⟨m, hm, (sp k hk).mpr (NearClip.refl w.layers (w.ident k hk).1)⟩
+  · obtain ⟨m, hm, sp⟩ := nearby_spec_periodic w hp k hk
+    exact ⟨m, hm, (sp k hk).mpr (NearMod.refl w.layers (w.ident k hk).1)⟩
+
+/-- **neighbor_spec (periodic)**: `neighbor_cell(c, d, ±)` never fails and returns the cell whose identifier is
+that of `c` with entry `d` replaced by `(c_d ± 1) mod n_d`. -/
+theorem neighbor_spec_periodic (w : WF s) (hp : s.periodic = true) (k : Nat) (hk : k < s.cells.size)
+    (d : Nat) (hd : d < s.perSide.length) (positive : Bool) :
+    ∃ k', ∃ hk' : k' < s.cells.size, neighbor s s.cells[k] (d : Int) positive = .ok (some s.cells[k']) ∧
+      s.cells[k'].ident = modifyDir s.cells[k].ident d
+        (fun v => (v + (if positive then 1 else -1)) % s.perSide.getD d 1) := by
+  have hv := (w.ident k hk).1
+  have hb := getD_bounds d hv hd
+  have hn : 1 ≤ s.perSide.getD d 1 := by omega
+  have hv' : Valid s.perSide (modifyDir s.cells[k].ident d
+      (fun v => (v + (if positive then 1 else -1)) % s.perSide.getD d 1)) :=
+    valid_modifyDir d _ hv hd ⟨Int.emod_nonneg _ (by omega), Int.emod_lt_of_pos _ (by omega)⟩
+  obtain ⟨k', hk', _, hlook, hid⟩ := cellOfIdent_valid w hv'
+  refine ⟨k', hk', ?_, hid⟩
+  have hdim : (d : Int) < (s.lengths.length : Int) := by rw [← w.dim]; exact_mod_cast hd
+  unfold neighbor
+  simp only [Int.natCast_nonneg, decide_true, hdim, Bool.and_self, Bool.not_true, Bool.false_eq_true, if_false,
+    Int.toNat_natCast, neighborIdent, hp, if_true]
+  cases positive
+  · simp only [Bool.false_eq_true, if_false] at hlook ⊢
+    have e : (fun v : Int => (v - 1) % s.perSide.getD d 1) = (fun v => (v + -1) % s.perSide.getD d 1) := by
+      funext v; rfl
+    rw [e, hlook]
+  · simp only [if_true] at hlook ⊢
+    rw [hlook]
+
+/-- **neighbor_spec (non-periodic)**: `None` exactly at the border of the grid, otherwise the cell with entry
+`d` of the identifier changed by `± 1`. -/
+theorem neighbor_spec_clipped (w : WF s) (hp : s.periodic = false) (k : Nat) (hk : k < s.cells.size)
+    (d : Nat) (hd : d < s.perSide.length) (positive : Bool) :
+    let i := s.cells[k].ident.getD d 0
+    let i' := i + (if positive then 1 else -1)
+    (¬ (0 ≤ i' ∧ i' < s.perSide.getD d 1) → neighbor s s.cells[k] (d : Int) positive = .ok none) ∧
+    ((0 ≤ i' ∧ i' < s.perSide.getD d 1) →
+      ∃ k', ∃ hk' : k' < s.cells.size, neighbor s s.cells[k] (d : Int) positive = .ok (some s.cells[k']) ∧
+        s.cells[k'].ident = modifyDir s.cells[k].ident d (fun v => v + (if positive then 1 else -1))) := by
+  intro i i'
+  have hv := (w.ident k hk).1
+  have hb := getD_bounds d hv hd
+  have hdim : (d : Int) < (s.lengths.length : Int) := by rw [← w.dim]; exact_mod_cast hd
+  constructor
+  · intro hout
+    unfold neighbor
+    simp only [Int.natCast_nonneg, decide_true, hdim, Bool.and_self, Bool.not_true, Bool.false_eq_true, if_false,
+      Int.toNat_natCast, neighborIdent, hp]
+    cases positive
+    · simp only [i', i, Bool.false_eq_true, if_false] at hout ⊢
+      have : s.cells[k].ident.getD d 0 - 1 < 0 := by omega
+      rw [if_pos this]
+    · simp only [i', i, if_true] at hout ⊢
+      have : s.cells[k].ident.getD d 0 + 1 ≥ s.perSide.getD d 1 := by omega
+      rw [if_pos this]
+  · intro hin
+    have hv' : Valid s.perSide (modifyDir s.cells[k].ident d (fun v => v + (if positive then 1 else -1))) :=
+      valid_modifyDir d _ hv hd hin
+    obtain ⟨k', hk', _, hlook, hid⟩ := cellOfIdent_valid w hv'
+    refine ⟨k', hk', ?_, hid⟩
+    unfold neighbor
+    simp only [Int.natCast_nonneg, decide_true, hdim, Bool.and_self, Bool.not_true, Bool.false_eq_true, if_false,
+      Int.toNat_natCast, neighborIdent, hp]
+    cases positive
+    · simp only [i', i, Bool.false_eq_true, if_false] at hin hlook ⊢
+      have : ¬ (s.cells[k].ident.getD d 0 - 1 < 0) := by omega
+      have e : (fun v : Int => v - 1) = (fun v => v + -1) := by funext v; rfl
+      simp only [this, if_false, e, hlook]
+    · simp only [i', i, if_true] at hin hlook ⊢
+      have : ¬ (s.cells[k].ident.getD d 0 + 1 ≥ s.perSide.getD d 1) := by omega
+      simp only [this, if_false, hlook]
+
+/-- the zero cell is the cell with the all-zero identifier -/
+theorem zeroCell_spec (w : WF s) : ∃ h0 : 0 < s.cells.size, zeroCell s = .ok s.cells[0] ∧
+    s.cells[0].ident = List.replicate s.perSide.length 0 := by
+  have hN := numberOfCells_pos w.pos
+  have h0 : 0 < s.cells.size := by have := w.size; omega
+  refine ⟨h0, ?_, ?_⟩
+  · have := pyGet_nat s.cells 0 h0
+    simpa [zeroCell] using this
+  · obtain ⟨v, f⟩ := w.ident 0 h0
+    exact flat_inj v (valid_replicate_zero w.pos) (by rw [f, flat_replicate_zero]; simp)
+
+end torus
+
+/-! ## C. positions: exact reading (`ℚ`)
+
+`Geo s`: the per-direction data of the system are consistent (`n_d ≥ 1`, `side_d > 0`, `L_d = n_d·side_d`; this
+is what `side = L / n` gives in exact arithmetic) and every recorded extent is within `side/8` of the ideal
+extent `[i·side, (i+1)·side]` — the float-stepped extents of the real class are within one ulp of it.
+`GeoIdeal s`: the recorded extents are the ideal ones (half-open reading `[min, max)`). -/
+
+structure Geo (s : System ℚ) : Prop where
+  dir : DirOK s.perSide s.side s.lengths
+  ext : ∀ k (h : k < s.cells.size), ExtNear s.side s.cells[k].ident s.cells[k].cmin s.cells[k].cmax
+
+structure GeoIdeal (s : System ℚ) : Prop where
+  dir : DirOK s.perSide s.side s.lengths
+  ext : ∀ k (h : k < s.cells.size), ExtIdeal s.side s.cells[k].ident s.cells[k].cmin s.cells[k].cmax
+
+theorem GeoIdeal.geo {s : System ℚ} (g : GeoIdeal s) : Geo s :=
+  ⟨g.dir, fun k h => (g.ext k h).near g.dir.pos.2⟩
+
+section exact
+variable {s : System ℚ}
+
+private theorem positionToCell_eq (pos : List ℚ) (h : assertInBox s.lengths pos = true) :
+    positionToCell Ops.rat s pos = cellOfIdent s (posIdent s.side pos) := by
+  unfold positionToCell
+  unfold assertInBox at h
+  simp only [h, Bool.not_true, Bool.false_eq_true, if_false]
+  rfl
+
+/-- **partition**: with ideal extents, every position of the box `Π [0, L_d)` is mapped by `position_to_cell`
+to a cell whose extent `Π [min_d, max_d)` contains it, and no other cell's extent contains it. -/
+theorem partition (w : WF s) (g : GeoIdeal s) (p : List ℚ) (hb : InBox s.lengths p) :
+    ∃ k, ∃ hk : k < s.cells.size, positionToCell Ops.rat s p = .ok s.cells[k] ∧
+      Contains s.cells[k].cmin s.cells[k].cmax p ∧
+      ∀ k' (hk' : k' < s.cells.size), Contains s.cells[k'].cmin s.cells[k'].cmax p → k' = k := by
+  obtain ⟨ha, hv, hc⟩ := posIdent_valid g.dir hb
+  obtain ⟨k, hk, _, hlook, hid⟩ := cellOfIdent_valid w hv
+  refine ⟨k, hk, ?_, ?_, ?_⟩
+  · rw [positionToCell_eq p ha, hlook]
+  · exact (hc _ _ _ (g.ext k hk) (w.ident k hk).1).mpr hid
+  · intro k' hk' hcont
+    have := (hc _ _ _ (g.ext k' hk') (w.ident k' hk').1).mp hcont
+    exact ident_inj w k' k hk' hk (by rw [this, hid])
+
+/-- **relative_spec**: `relative_cell(c, r)` never fails and returns the cell with identifier `(c − r) mod n` -/
+theorem relative_spec (w : WF s) (g : Geo s) (k r : Nat) (hk : k < s.cells.size) (hr : r < s.cells.size) :
+    ∃ k', ∃ hk' : k' < s.cells.size, relativeCell Ops.rat s s.cells[k] s.cells[r] = .ok s.cells[k'] ∧
+      s.cells[k'].ident = subMod s.perSide s.cells[k].ident s.cells[r].ident := by
+  obtain ⟨ha, hd⟩ := mid_digits false g.dir (g.ext k hk) (g.ext r hr)
+  have hv : Valid s.perSide (subMod s.perSide s.cells[k].ident s.cells[r].ident) :=
+    subMod_valid w.pos (w.ident k hk).1.length_eq (w.ident r hr).1.length_eq
+  obtain ⟨k', hk', _, hlook, hid⟩ := cellOfIdent_valid w hv
+  refine ⟨k', hk', ?_, hid⟩
+  unfold relativeCell midPosition
+  rw [positionToCell_eq _ ha, hd]
+  exact hlook
+
+/-- **translate_spec**: `translate(c, o)` never fails and returns the cell with identifier `(c + o) mod n` -/
+theorem translate_spec (w : WF s) (g : Geo s) (k r : Nat) (hk : k < s.cells.size) (hr : r < s.cells.size) :
+    ∃ k', ∃ hk' : k' < s.cells.size, translate Ops.rat s s.cells[k] s.cells[r] = .ok s.cells[k'] ∧
+      s.cells[k'].ident = addMod s.perSide s.cells[k].ident s.cells[r].ident := by
+  obtain ⟨ha, hd⟩ := mid_digits true g.dir (g.ext k hk) (g.ext r hr)
+  have hv : Valid s.perSide (addMod s.perSide s.cells[k].ident s.cells[r].ident) :=
+    addMod_valid w.pos (w.ident k hk).1.length_eq (w.ident r hr).1.length_eq
+  obtain ⟨k', hk', _, hlook, hid⟩ := cellOfIdent_valid w hv
+  refine ⟨k', hk', ?_, hid⟩
+  unfold translate midPosition
+  rw [positionToCell_eq _ ha, hd]
+  exact hlook
+
+/-- **translate inverts relative_cell**: `translate(r, relative_cell(c, r)) = c` -/
+theorem translate_relative (w : WF s) (g : Geo s) (k r : Nat) (hk : k < s.cells.size) (hr : r < s.cells.size) :
+    ∃ k', ∃ hk' : k' < s.cells.size, relativeCell Ops.rat s s.cells[k] s.cells[r] = .ok s.cells[k'] ∧
+      translate Ops.rat s s.cells[r] s.cells[k'] = .ok s.cells[k] := by
+  obtain ⟨k', hk', h1, e1⟩ := relative_spec w g k r hk hr
+  obtain ⟨k'', hk'', h2, e2⟩ := translate_spec w g r k' hr hk'
+  refine ⟨k', hk', h1, ?_⟩
+  rw [e1, addMod_subMod (w.ident k hk).1 (w.ident r hr).1.length_eq] at e2
+  have := ident_inj w k'' k hk'' hk e2
+  subst this; exact h2
+
+/-- **relative_cell inverts translate**: `relative_cell(translate(c, o), c) = o` -/
+theorem relative_translate (w : WF s) (g : Geo s) (k r : Nat) (hk : k < s.cells.size) (hr : r < s.cells.size) :
+    ∃ k', ∃ hk' : k' < s.cells.size, translate Ops.rat s s.cells[k] s.cells[r] = .ok s.cells[k'] ∧
+      relativeCell Ops.rat s s.cells[k'] s.cells[k] = .ok s.cells[r] := by
+  obtain ⟨k', hk', h1, e1⟩ := translate_spec w g k r hk hr
+  obtain ⟨k'', hk'', h2, e2⟩ := relative_spec w g k' k hk' hk
+  refine ⟨k', hk', h1, ?_⟩
+  rw [e1, subMod_addMod (w.ident r hr).1 (w.ident k hk).1.length_eq] at e2
+  have := ident_inj w k'' r hk'' hr e2
+  subst this; exact h2
+
+/-- **translation invariance of nearby** (needed by C10/C18): in a periodic cell system `c'` is nearby `c`
+iff `relative_cell(c', c)` is nearby the zero cell. -/
+theorem nearby_translation_invariant (w : WF s) (g : Geo s) (hp : s.periodic = true)
+    (k k' : Nat) (hk : k < s.cells.size) (hk' : k' < s.cells.size) :
+    ∃ (l l0 : List (Cell ℚ)) (z : Cell ℚ) (rel : Cell ℚ),
+      nearby s s.cells[k] = .ok l ∧ zeroCell s = .ok z ∧ nearby s z = .ok l0 ∧
+      relativeCell Ops.rat s s.cells[k'] s.cells[k] = .ok rel ∧
+      (s.cells[k'] ∈ l ↔ rel ∈ l0) := by
+  obtain ⟨l, hl, sp⟩ := nearby_spec_periodic w hp k hk
+  obtain ⟨h0, hz, ez⟩ := zeroCell_spec w
+  obtain ⟨l0, hl0, sp0⟩ := nearby_spec_periodic w hp 0 h0
+  obtain ⟨j, hj, hrel, ej⟩ := relative_spec w g k' k hk' hk
+  refine ⟨l, l0, s.cells[0], s.cells[j], hl, hz, hl0, hrel, ?_⟩
+  rw [sp k' hk', sp0 j hj, ez, ej]
+  exact nearMod_iff_relative (w.ident k' hk').1 (w.ident k hk).1.length_eq
+
+/-- in exact arithmetic `side = L / n` gives `L = n · side`: the `DirOK` part of `Geo` is established by the
+constructor for positive box lengths -/
+theorem constructor_dirOK (st : Stepper ℚ) (fuel : Nat) (periodic : Bool) (lengths : List ℚ)
+    (cps : List Int) (layers : Int) (s : System ℚ) (hL : ∀ l ∈ lengths, 0 < l)
+    (h : create Ops.rat st fuel periodic lengths cps layers = .ok s) :
+    DirOK s.perSide s.side s.lengths := by
+  obtain ⟨w, _, e1, _, _, e3⟩ := create_wf Ops.rat st fuel periodic lengths cps layers s h
+  rw [e3, e1]
+  exact dirOK_of_div _ _ (by rw [w.dim, e1]) w.pos hL
+
+/-! ### non-vacuity of `WF`, `Geo`, `GeoIdeal` -/
+
+/-- a 2×2 grid on the box `[0,1) × [0,2)` with ideal extents -/
+def exIdeal : System ℚ :=
+  ⟨true, [1, 2], [2, 2], 1, [1/2, 1], [1, 2],
+   #[⟨[0, 0], [0, 0], [1/2, 1]⟩, ⟨[1, 0], [1/2, 0], [1, 1]⟩, ⟨[0, 1], [0, 1], [1/2, 2]⟩, ⟨[1, 1], [1/2, 1], [1, 2]⟩]⟩
+
+example : WF exIdeal ∧ GeoIdeal exIdeal := by
+  refine ⟨⟨by simp [exIdeal], rfl, rfl, rfl, ?_, by simp [exIdeal]⟩, ⟨?_, ?_⟩⟩
+  · intro k hk
+    have hk' : k < 4 := hk
+    have : k = 0 ∨ k = 1 ∨ k = 2 ∨ k = 3 := by omega
+    rcases this with rfl | rfl | rfl | rfl <;>
+      exact ⟨by simp [exIdeal, Valid], by simp [exIdeal, flat, cumProdFrom, dot]⟩
+  · simp [exIdeal, DirOK]
+  · intro k hk
+    have hk' : k < 4 := hk
+    have : k = 0 ∨ k = 1 ∨ k = 2 ∨ k = 3 := by omega
+    rcases this with rfl | rfl | rfl | rfl <;> simp [exIdeal, ExtIdeal] <;> norm_num
+
+/-- the constructor itself, read over `ℚ` with a fixed-point stepper (step 1/16), succeeds and records the
+closed extents `[i·side, (i+1)·side − 1/16]`, which satisfy the `side/8` hypothesis of `Geo` -/
+example : ((create Ops.rat ⟨(· + 1/16), (· - 1/16)⟩ 10 true [1, 2] [2, 2] 1).toOption.map
+    (fun s => s.cells.toList.map (fun c => (c.ident, c.cmin, c.cmax)))) =
+    some [([0, 0], [0, 0], [7/16, 15/16]), ([1, 0], [1/2, 0], [15/16, 15/16]),
+          ([0, 1], [0, 1], [7/16, 31/16]), ([1, 1], [1/2, 1], [15/16, 31/16])] := by
+  decide +kernel
+
+example : ExtNear [1/2, 1] [1, 0] [1/2, 0] [15/16, 15/16] := by
+  simp only [ExtNear, and_true]; norm_num [abs_le]
+
+end exact
+
+/-! ## D. the float-stepping loops, rounding-abstract reading -/
+
+section stepping
+variable {α : Type} [Mul α] [Div α] [LT α] [DecidableLT α] [BEq α]
+
+/-- **extent_sound**: for any scalar type and any mutually inverse stepping functions along which
+`int(x / side)` is monotone and changes by at most one per step (`StepLaws`; true of binary64 as long as a cell
+is wider than an ulp), the loops of `CuboidCells.__init__`, when they terminate, return the two ends of the
+maximal run of consecutive scalars that `position_to_cell` sends to index `i`:
+`int(max/side) = i`, `int(next_up(max)/side) = i + 1`, `int(min/side) = i`, `int(next_down(min)/side) = i − 1`
+(`min` of the first cell is the literal `0·side`).  In particular, under `StepLaws`, the recorded extents can
+never cover a scalar whose digit is `n`: this is how finding F2 shows up in the extents. -/
+theorem extent_sound (o : Ops α) (st : Stepper α) (fuel : Nat) (side : α) (i : Int) (laws : StepLaws o st side) :
+    (∀ u, i ≤ digit o side (o.ofInt (i + 1) * side) → upperPos o st fuel side i = .ok u →
+        digit o side u = i ∧ digit o side (st.up u) = i + 1) ∧
+    (∀ l, o.ofInt 0 < o.ofInt i * side → digit o side (o.ofInt i * side) ≤ i → lowerPos o st fuel side i = .ok l →
+        digit o side l = i ∧ digit o side (st.down l) = i - 1) ∧
+    (¬ (o.ofInt 0 < o.ofInt i * side) → lowerPos o st fuel side i = .ok (o.ofInt i * side)) :=
+  ⟨fun u hs h => upperPos_sound o st fuel side i laws hs u h,
+   fun l hp hs h => lowerPos_sound o st fuel side i laws hp hs l h,
+   fun hp => lowerPos_origin o st fuel side i hp⟩
+
+/-- **cells abut**: under the order laws of the scalars (`OrderLaws`: total order, `up x` is the successor of
+`x`, the digit is monotone), the scalar following `cell_max` of cell `i` is exactly `cell_min` of cell `i+1`
+(both as characterised by `extent_sound`): consecutive cells neither overlap nor leave a scalar out. -/
+theorem cells_abut {α : Type} [Div α] [LT α] [LE α] (o : Ops α) (st : Stepper α) (side : α)
+    (laws : OrderLaws o st side) (i : Int) (u l : α)
+    (hu : digit o side u = i) (hu' : digit o side (st.up u) = i + 1)
+    (hl : digit o side l = i + 1) (hl' : digit o side (st.down l) = i) : st.up u = l :=
+  extents_abut o st side laws i u l hu hu' hl hl'
+
+/-- non-vacuity of `StepLaws`: a fixed-point grid of spacing `δ ≤ side` over `ℚ` -/
+example : StepLaws Ops.rat ⟨(· + 1/16), (· - 1/16)⟩ (1/2) := stepLaws_grid (1/2) (1/16) (by norm_num) (by norm_num) (by norm_num)
+
+/-- non-vacuity: fixed-point scalars (`ℤ`, unit = one grid step), `int(x / side)` = floor division -/
+private def fixOps : Ops Int := ⟨id, id, fun x y => x % y, id, fun _ => false, fun _ => 0, id⟩
+example (side : Int) (hs : 1 ≤ side) :
+    OrderLaws fixOps ⟨(· + 1), (· - 1)⟩ side ∧ StepLaws fixOps ⟨(· + 1), (· - 1)⟩ side := by
+  refine ⟨⟨fun x y => by omega, fun x y h1 h2 => by omega, fun x y h => by show x + 1 ≤ y; omega,
+    fun x => by show x - 1 + 1 = x; omega, fun x y h => Int.ediv_le_ediv (by omega) h⟩,
+    ⟨fun x => by show x - 1 + 1 = x; omega, fun x => by show x + 1 - 1 = x; omega,
+     fun x => Int.ediv_le_ediv (by omega) (by show x - 1 ≤ x; omega), ?_⟩⟩
+  intro x
+  show x / side ≤ (x - 1) / side + 1
+  have : (x - 1) / side + 1 = (x - 1 + 1 * side) / side := (Int.add_mul_ediv_right _ _ (by omega)).symm
+  rw [this]
+  exact Int.ediv_le_ediv (by omega) (by omega)
+
+end stepping
+
+/-! ## E. binary64: the top of the box is not covered (finding F2), proved on native `Float` by kernel evaluation -/
+
+/-- the largest float below 1.0 -/
+def belowOne : Float := Float.ofBits 0x3FEFFFFFFFFFFFFF
+
+/-- `int(p / (1/3)) = 3` for `p = 1 − 2⁻⁵³`: the digit leaves `range(3)` although `0 ≤ p < L = 1`
+(likewise for 6, 7, 9, 12 cells per side) -/
+theorem float_digit_overflow :
+    [3, 6, 7, 9, 12].all (fun n => digit Ops.float ((1.0 : Float) / Ops.float.ofInt n) belowOne == n) = true := by
+  decide +kernel
+
+/-- on the 3×5×7 grid of the unit box, `position_to_cell((1 − 2⁻⁵³, 0.1, 0.1))` returns cell `(0, 1, 0)`, whose
+`cell_max[0]` is below the position: the position is in the box but not in the extent of its cell -/
+theorem float_position_in_wrong_cell :
+    (match create Ops.float Stepper.float 1000 true [1.0, 1.0, 1.0] [3, 5, 7] 1 with
+     | .ok s =>
+       (match positionToCell Ops.float s [belowOne, 0.1, 0.1] with
+        | .ok c => c.ident == [0, 1, 0] && decide (c.cmax.getD 0 0.0 < belowOne)
+        | .error _ => false)
+     | .error _ => false) = true := by
+  decide +kernel
+
+/-- … and `position_to_cell((1 − 2⁻⁵³,)*3)` raises `IndexError` -/
+theorem float_position_index_error :
+    (match create Ops.float Stepper.float 1000 true [1.0, 1.0, 1.0] [3, 5, 7] 1 with
+     | .ok s =>
+       (match positionToCell Ops.float s [belowOne, belowOne, belowOne] with
+        | .ok _ => false
+        | .error e => e == "IndexError")
+     | .error _ => false) = true := by
+  decide +kernel
+
+/-- the constructor's stepping ends the last cell of direction 0 at `1 − 2⁻⁵²`: the recorded extents do not
+cover `1 − 2⁻⁵³ ∈ [0, 1)` -/
+theorem float_last_cell_max_below_top :
+    (match create Ops.float Stepper.float 1000 true [1.0, 1.0, 1.0] [3, 5, 7] 1 with
+     | .ok s => s.cells.toList.all (fun c => decide (c.cmax.getD 0 0.0 < belowOne)) &&
+                (s.cells.toList.map (fun c => (c.cmax.getD 0 0.0).toBits)).contains 0x3FEFFFFFFFFFFFFE
+     | .error _ => false) = true := by
+  decide +kernel
 
 end JF.C16
